@@ -50,6 +50,9 @@ fn quietly<R>(f: impl FnOnce() -> R + std::panic::UnwindSafe) -> std::thread::Re
     r
 }
 const MEM_LIMIT: usize = 3 << 30;
+static CASE_START_MS: AtomicUsize = AtomicUsize::new(0);
+const TIME_LIMIT_MS: usize = 20_000;
+fn now_ms() -> usize { std::time::SystemTime::now().duration_since(std::time::UNIX_EPOCH).map(|d| d.as_millis() as usize).unwrap_or(0) }
 unsafe impl std::alloc::GlobalAlloc for Guard {
     unsafe fn alloc(&self, l: std::alloc::Layout) -> *mut u8 {
         if ALLOCATED.fetch_add(l.size(), Ordering::Relaxed) > MEM_LIMIT {
@@ -574,6 +577,16 @@ fn witnesses() -> Vec<(&'static str, Case)> {
 
 fn main() {
     let a = parse_args();
+    // watchdog: a case that runs for more than TIME_LIMIT_MS is an unbounded loop of the implementation
+    std::thread::spawn(|| loop {
+        std::thread::sleep(std::time::Duration::from_millis(500));
+        let start = CASE_START_MS.load(Ordering::Relaxed);
+        if start != 0 && now_ms().saturating_sub(start) > TIME_LIMIT_MS {
+            eprintln!("c04: time limit ({} s) exceeded while serialising case {} (unbounded loop in the pretty-printer's planning phase?); replay with --only {}",
+                TIME_LIMIT_MS / 1000, CURRENT_CASE.load(Ordering::Relaxed), CURRENT_CASE.load(Ordering::Relaxed));
+            std::process::abort();
+        }
+    });
     // panics of the implementation are caught and reported by the oracle; the harness's own are shown
     let default_hook = std::panic::take_hook();
     std::panic::set_hook(Box::new(move |info| { if !QUIET.load(Ordering::Relaxed) { default_hook(info) } }));
@@ -583,6 +596,7 @@ fn main() {
             (None, [b("b"), rdf("first"), b("a")]), (None, [b("b"), rdf("rest"), rdf("nil")]), (None, [b("b"), rdf("rest"), b("b")])],
             prefixes: vec![], indent: "  ".into(), pretty: true, trig: false };
         CURRENT_CASE.store(0, Ordering::Relaxed);
+        CASE_START_MS.store(now_ms(), Ordering::Relaxed);
         println!("{}", match oracle(&c) { Ok(t) => format!("round-trips:\n{t}"), Err(e) => format!("FAILS: {e}") });
         return;
     }
@@ -613,6 +627,7 @@ non-trivial = the dataset has a blank node, a quoted triple, a list, a numeric/b
     let range: Vec<usize> = match a.only { Some(i) => vec![i], None => (0..a.n).collect() };
     for idx in range {
         CURRENT_CASE.store(idx, Ordering::Relaxed);
+        CASE_START_MS.store(now_ms(), Ordering::Relaxed);
         let mut r = base.fork(idx as u64);
         let stream = idx % 8;
         let (c, coq): (Case, Option<String>) = if stream < 6 {
@@ -665,6 +680,7 @@ non-trivial = the dataset has a blank node, a quoted triple, a list, a numeric/b
             }
         }
     }
+    CASE_START_MS.store(0, Ordering::Relaxed);   // the watchdog only times the implementation
     if a.only.is_none() {
         let header = "From Sophia.C04 Require Import Model.\n";
         sum.shards = write_shards(&a.out, header, &cases, a.shards);
